@@ -3,6 +3,7 @@ package gen
 import (
 	"encoding/json"
 	"fmt"
+	"math"
 	"reflect"
 )
 
@@ -13,7 +14,9 @@ import (
 // FilterNames / AggNames are the registered names. Behaviour is (index mod 3).
 // "fre" is the identity; the library-side closure additionally re-enters the library when a
 // check asks for it (C05: a user function that itself calls a parsed function).
-var FilterNames = []string{"f1", "f2", "f3", "f4", "f5", "f6", "fre"}
+// "fnan" maps negative numbers and empty arrays to NaN (think "mean of nothing"); the
+// generators use it inside filter operands only, where its output is compared, never returned.
+var FilterNames = []string{"f1", "f2", "f3", "f4", "f5", "f6", "fre", "fnan"}
 
 // "gid" returns the very slice it was given (an aggregate a user could plausibly write); it
 // makes the ownership of the argument list observable (C05).
@@ -46,6 +49,23 @@ func ApplyFilter(name string, v interface{}) (interface{}, error) {
 		return nil, fmt.Errorf("harness bug: unknown filter function %s", name)
 	}
 	if name == "fre" {
+		return v, nil
+	}
+	if name == "fnan" {
+		switch t := v.(type) {
+		case float64:
+			if t < 0 {
+				return math.NaN(), nil
+			}
+		case json.Number:
+			if f, _ := t.Float64(); f < 0 {
+				return math.NaN(), nil
+			}
+		case []interface{}:
+			if len(t) == 0 {
+				return math.NaN(), nil
+			}
+		}
 		return v, nil
 	}
 	switch i % 3 {
